@@ -129,6 +129,27 @@ func c06Scenarios() ([]*sched.Scenario, error) {
 		}); err != nil {
 		return nil, err
 	}
+	// ONE script drawing twice on the same bounded-overdraft account (two sends; an in-order
+	// source naming the account twice): the allowance is granted once per transaction, not once
+	// per use (seeded change C06c left the emptied source's in-script balance at 0 instead of -X)
+	twice := func(a1, a2 string) string {
+		return fmt.Sprintf("send [USD %s] (\n source = @x allowing overdraft up to [USD 100]\n destination = @y\n)\nsend [USD %s] (\n source = @x allowing overdraft up to [USD 100]\n destination = @v\n)", a1, a2)
+	}
+	inOrderTwice := "send [USD 180] (\n source = {\n  max [USD 60] from @x allowing overdraft up to [USD 100]\n  @x allowing overdraft up to [USD 100]\n }\n destination = @y\n)"
+	if err := mk("S9-one-script-draws-twice-on-a-bounded-overdraft-account", []lx.Op{inUse},
+		[][]lx.Op{
+			{{Kind: "script", Name: "x>y60,x>v120/od100", Script: twice("60", "120")}},
+			{{Kind: "script", Name: "x>y60,x>v40/od100", Script: twice("60", "40")}},
+		}); err != nil {
+		return nil, err
+	}
+	if err := mk("S10-in-order-source-names-the-bounded-overdraft-account-twice", []lx.Op{inUse},
+		[][]lx.Op{
+			{{Kind: "script", Name: "{max60 x, x}>y180/od100", Script: inOrderTwice}},
+			{{Kind: "script", Name: "x>w100/od100", Script: overdraftScript("x", "w", "100", "100")}},
+		}); err != nil {
+		return nil, err
+	}
 	if err := mk("S3-never-used-pair-unbounded", []lx.Op{inUse},
 		[][]lx.Op{
 			{{Kind: "script", Name: "x>y100/unb", Script: overdraftScript("x", "y", "100", "unbounded")}},
@@ -176,6 +197,6 @@ func c06Scenarios() ([]*sched.Scenario, error) {
 func init() {
 	registerConc(concCheck{
 		id: "C06", scenarios: c06Scenarios, boundQ: 2, boundT: -1, quick: 100 * time.Second, thorough: 15 * time.Minute, minOutcomes: 2,
-		rule: "7 closed scenarios (two sends of 60 from 100; two bounded-overdraft sends from a NEVER-USED account/asset; same unbounded (must both succeed); send vs non-forced revert of the funding; two non-forced reverts draining one account; three writers touching two accounts in opposite order; bounded overdraft on an existing zero row); every schedule with <= bound preemptions (thorough: all schedules) at driver-call granularity, pgsim row locks/READ COMMITTED snapshots deciding who blocks and what each statement sees; oracle: committed writes replayed in commit order, every non-world source must end >= min(balance before, -declared allowance), and the final volumes equal the replay",
+		rule: "10 closed scenarios (two sends of 60 from 100; two bounded-overdraft sends from a NEVER-USED account/asset; one script drawing twice on the same bounded-overdraft account (two sends, totals above and at the allowance) and an in-order source naming it twice; same unbounded (must both succeed); send vs non-forced revert of the funding; two non-forced reverts draining one account; three writers touching two accounts in opposite order; bounded overdraft on an existing zero row); every schedule with <= bound preemptions (thorough: all schedules) at driver-call granularity, pgsim row locks/READ COMMITTED snapshots deciding who blocks and what each statement sees; oracle: committed writes replayed in commit order, every non-world source must end >= min(balance before, -declared allowance), and the final volumes equal the replay",
 	}, reg.Register)
 }
